@@ -14,9 +14,9 @@ EXPL = ('Taint from public-API parameters (and fields of user-provided definitio
         'discharged by type range, mask, dominating compares or derived gate summaries (zero return => param < K); gate return '
         'discipline; typed-gate dominance for FSR-only track pointers; result consumption of allocation growth; read-at-extent '
         'contradiction; enum-indexed table extents; resource pairing (field owners and local resources on every exit); grow-to-fit '
-        'retry loops; window/increment gates; tainted divisors.')
-NOT_DECIDED = ('Value-range safety of the sub-byte copy loops, integer overflow in rounding helpers beyond the divisor rule, binary-search '
-               'bounds in tmap: relational numeric reasoning, not claimed.')
+        'retry loops; window/increment gates in overflow-free form; tainted divisors; 32-bit length arithmetic bounded before use as a size; message ring '
+        'hand-out bound; capacity bookkeeping and interior pointers around realloc; bisection bound.')
+NOT_DECIDED = ('Value-range safety of the sub-byte copy loops and integer overflow in rounding helpers beyond the divisor rule: relational numeric reasoning, not claimed.  Bisection is bounded only for the idiom lo < hi with mid = (lo + hi [+ 1]) / 2 (C10.20).  Behaviour under failing backend calls (short writes, ENOSPC) is not examined.')
 
 API_PREFIXES = ('jls_rd_', 'jls_wr_', 'jls_twr_', 'jls_raw_', 'jls_copy', 'jls_log_', 'jls_statistics_', 'jls_dt_', 'jls_tmap_', 'jls_buf_')
 USER_STRUCTS = ('jls_source_def_s', 'jls_signal_def_s')
